@@ -53,6 +53,20 @@ CLAIMS = {
         "of all module-level containers, class attributes and default-argument objects of the package is compared around every call.",
    technique="Lean 4 proof over facts translated from the live package (mutable default arguments) + fresh-interpreter differential oracle over call histories",
    design="§6 C11"),
+ "C12": dict(
+   text="Proof (Lean 4) about the specification of the energy targets that C01.di_targets_exact proves the cascade model computes "
+        "on every compatible grid (IsTargets: Qh = attained maximum over ALL temperatures of the net heat deficit; Qc, Qr close "
+        "the balance). IsTargets.unique + model_agrees: two descriptions with the same specification get the same targets from "
+        "the model whatever grids the two runs use. For stream lists of any length: perm_invariant (any permutation), "
+        "split_serial_hot/cold (split at an intermediate temperature), split_parallel_hot/cold (branches of the same range), "
+        "translate_invariant (targets unchanged, every attaining temperature - pinch - moves by the shift), scale_linear "
+        "(k >= 0), mirror_swaps (mirrored cold streams act as hot ones: Qh <-> Qc, Qr unchanged). NOT covered by theorems: zone "
+        "renaming/reordering, utility duties per utility, total-site records, graph data - decided by the metamorphic oracle on "
+        "the service: 240+ (problem, transformation) pairs per run over 8 transformations, every record compared (Qh, Qc, Qr, "
+        "each utility duty, both pinch temperatures, graph curves as polylines). Model tie: the Lean cascade on the whole "
+        "stream set of original and image must stand in the proved relation exactly.",
+   technique="Lean 4 proof of invariance of the target specification (uniqueness + algebra of the heat-deficit function) + metamorphic testing of the service + model tie",
+   design="§6 C12"),
  "C17": dict(
    text="Partial proof (Lean 4) about the code-shaped model of _rdp (stack ranges as a recursion with fuel = number of points, "
         "first-maximum scan with strict >, zero-length chord `continue`) for polylines of ANY length and ANY tolerance: rdp_ends "
